@@ -38,7 +38,7 @@ func (f *treeFetcher) FetchSourcePackage(ctx context.Context, sourceType string,
 			os.MkdirAll(p, 0755)
 		case "f":
 			os.MkdirAll(filepath.Dir(p), 0755)
-			os.WriteFile(p, []byte(n.Data), os.FileMode(n.Perm))
+			os.WriteFile(p, []byte(nodeData(n)), os.FileMode(n.Perm))
 		case "l":
 			os.MkdirAll(filepath.Dir(p), 0755)
 			t := strings.Replace(n.Data, "@WORK@", targetDir, 1)
@@ -113,7 +113,7 @@ type simpleFinder struct{}
 
 func init() {
 	lanes["sanitise"] = func(cfg *Config, rep *Report) {
-		rep.Rule = "one fetched package tree per build: 1..9 nodes (files, directories, fifos, links over 22 target shapes: in-package relative and absolute-into-the-work-directory, dangling, to a directory, to a sibling package, to the manifest name, out of the bundle, through ignored directories, '..' detours) plus one of 15 rule files; non-trivial = has a link, a fifo or a rule file; distinct by tree"
+		rep.Rule = "one fetched package tree per build: 1..9 nodes (files, directories, fifos, links over 22 target shapes: in-package relative and absolute-into-the-work-directory, dangling, to a directory, to a sibling package, to the manifest name, out of the bundle, through ignored directories, '..' detours) plus one of 15 rule files; two corpus trees with generated rule files (about 1 MiB of short lines with the rules that matter at the end; a 70 KiB comment line) judged by the oracle only; non-trivial = has a link, a fifo or a rule file; distinct by tree"
 		r := NewRng(cfg.Seed)
 		work, err := filepath.EvalSymlinks(cfg.Work)
 		if err != nil {
@@ -139,6 +139,14 @@ func init() {
 			{{Path: "a", Kind: "f", Perm: 0644, Data: "x"}, {Path: "z", Kind: "l", Data: "."}, {Path: "l", Kind: "l", Data: "z/../@WORKBASE@/a"}},
 			{{Path: "a", Kind: "f", Perm: 0644, Data: "x"}, {Path: "d", Kind: "d", Perm: 0755}, {Path: "d/l", Kind: "l", Data: "../a"}},
 			{{Path: "d", Kind: "d", Perm: 0755}, {Path: "d/keep", Kind: "f", Perm: 0644, Data: "k"}, {Path: "d/x", Kind: "f", Perm: 0644, Data: "x"}, {Path: ".terraformignore", Kind: "f", Perm: 0644, Data: "d/\n!d/keep\n"}},
+			// oracle only (generated rule files are not sent to the model): a rule file of a bit more than
+			// 1 MiB of short valid lines with the exclusions that matter at its end (seed C10-f: the rule file
+			// read through a 1 MiB LimitReader) ...
+			bigRuleFileTree("rule-lines", 1<<20+4096),
+			// ... and one with a comment line beyond bufio.Scanner's 64 KiB token limit between two
+			// exclusions: the unchanged code refuses the package ("invalid .terraformignore file: ... token
+			// too long"); were it accepted, everything the whole file excludes would have to be gone
+			bigRuleFileTree("long-line", 70<<10),
 		}
 		for i := range trees {
 			if i < len(corpus) {
@@ -183,7 +191,13 @@ func init() {
 				os.WriteFile(filepath.Join(target, "sibling-pkg", "file"), []byte("sibling"), 0644)
 				os.WriteFile(filepath.Join(arena, "outside.txt"), []byte("secret"), 0600)
 				defer func() { chmodAll(arena); os.RemoveAll(arena) }()
-				f := &treeFetcher{nodes: nodes, arena: arena}
+				oracleOnly := false
+				for _, nd := range nodes {
+					if nd.FillKind != "" {
+						oracleOnly = true
+					}
+				}
+				f := &treeFetcher{nodes: nodes, arena: arena, noSnap: oracleOnly}
 				env := newEnv(&BWorld{})
 				b, err := sourcebundle.NewBuilder(target, f, env)
 				if err != nil {
@@ -210,7 +224,10 @@ func init() {
 				if diags.HasErrors() {
 					class = "fail"
 				}
-				after := snapshotNS(arena)
+				after := ""
+				if !oracleOnly {
+					after = snapshotNS(arena)
+				}
 				// final directory name: the only new directory of the target besides sibling-pkg and temp dirs
 				final := filepath.Join(target, "unknown-final")
 				ents, _ := os.ReadDir(target)
@@ -231,7 +248,9 @@ func init() {
 				}
 				rep.Case(fmt.Sprintf("%v", nodes), nt, map[string]interface{}{"tree": nodes, "result": class})
 				rep.Count("result:" + class)
-				if f.workDir != "" {
+				if oracleOnly {
+					rep.Count("oracle-only:" + class)
+				} else if f.workDir != "" {
 					reqs[i] = fmt.Sprintf("sanitise %s %s %s", X(f.workDir), X(final), zeroMtimes(f.snapshot))
 					impl[i] = class + " " + zeroMtimes(after)
 					human[i] = in
@@ -381,10 +400,24 @@ func init() {
 	}
 }
 
+func bigRuleFileTree(fillKind string, fillBytes int) []PNode {
+	return []PNode{
+		{Path: "main.tf", Kind: "f", Perm: 0644, Data: "m"},
+		{Path: "old.bak", Kind: "f", Perm: 0644, Data: "b"},
+		{Path: "secret.auto.tfvars", Kind: "f", Perm: 0600, Data: "password"},
+		{Path: "private", Kind: "d", Perm: 0755},
+		{Path: "private/key.pem", Kind: "f", Perm: 0600, Data: "key"},
+		{Path: "modules", Kind: "d", Perm: 0755},
+		{Path: "modules/child.tf", Kind: "f", Perm: 0644, Data: "c"},
+		{Path: "to-main", Kind: "l", Data: "main.tf"},
+		{Path: ".terraformignore", Kind: "f", Perm: 0644, FillKind: fillKind, FillBytes: fillBytes, Data: "*.bak\n@FILL@\nsecret.auto.tfvars\nprivate/\n"},
+	}
+}
+
 func ruleFileOf(nodes []PNode) string {
 	for _, n := range nodes {
 		if n.Path == ".terraformignore" && n.Kind == "f" {
-			return n.Data
+			return nodeData(n)
 		}
 	}
 	return ""
